@@ -28,7 +28,7 @@ RECURSIVE SumSet(_, _)
 SumSet(f, S) == IF S = {} THEN 0 ELSE LET x == CHOOSE x \in S : TRUE IN f[x] + SumSet(f, S \ {x})
 
 \* ------------------------------------------------------------------------------------------------------------ the universe
-Base == {"F1", "F2", "F3"}                   \* confirmed outputs of other people (one output each, index 1)
+Base == {"F1", "F2", "F3", "F4"}                   \* confirmed outputs of other people (one output each, index 1)
 O(t, i) == <<t, i>>
 TxDef == [
   R1  |-> [ins |-> {O("F1", 1)}, outs |-> <<[v |-> 50, mine |-> TRUE], [v |-> 49, mine |-> FALSE]>>],       \* payment to the wallet
@@ -39,7 +39,12 @@ TxDef == [
   S2  |-> [ins |-> {O("S1", 2)}, outs |-> <<[v |-> 10, mine |-> FALSE], [v |-> 18, mine |-> TRUE]>>],       \* spends the change of S1
   M1  |-> [ins |-> {O("R2", 1), O("F3", 1)}, outs |-> <<[v |-> 120, mine |-> TRUE], [v |-> 9, mine |-> FALSE]>>],   \* joint spend with a foreign input
   S3  |-> [ins |-> {O("R2", 1), O("S1", 2)}, outs |-> <<[v |-> 58, mine |-> TRUE]>>],                      \* consolidation; conflicts with S2 and M1
-  S4  |-> [ins |-> {O("R1", 1), O("R2", 1)}, outs |-> <<[v |-> 78, mine |-> TRUE], [v |-> 1, mine |-> FALSE]>>] ]  \* spends both payments; conflicts with S1, S1x, M1, S3
+  S4  |-> [ins |-> {O("R1", 1), O("R2", 1)}, outs |-> <<[v |-> 78, mine |-> TRUE], [v |-> 1, mine |-> FALSE]>>],  \* spends both payments; conflicts with S1, S1x, M1, S3
+  \* a wallet transaction with several wallet parents that can be conflicted independently, at different heights:
+  R3  |-> [ins |-> {O("F4", 1)}, outs |-> <<[v |-> 40, mine |-> TRUE], [v |-> 59, mine |-> FALSE]>>],       \* a third payment (coin k)
+  W2  |-> [ins |-> {O("R2", 1)}, outs |-> <<[v |-> 29, mine |-> TRUE]>>],                                   \* wallet moves coin b = R2:1 to itself (output o)
+  C1  |-> [ins |-> {O("W2", 1), O("R1", 1), O("R3", 1)}, outs |-> <<[v |-> 100, mine |-> FALSE], [v |-> 18, mine |-> TRUE]>>],  \* spends o, a = R1:1 and k = R3:1
+  Z3  |-> [ins |-> {O("F3", 1)}, outs |-> <<[v |-> 99, mine |-> FALSE]>>] ]                                 \* the owner of F3 spends it elsewhere (kills M1 for good)
 AllTx == DOMAIN TxDef
 Tx == Enabled
 CbValue == 7
@@ -166,7 +171,10 @@ WV(W) ==
       bal |-> [trusted |-> sum("trusted"), pending |-> sum("pending"), immature |-> sum("immature")],
       direct |-> SumSet([o \in direct |-> OutsOf(W.cm, o[1])[o[2]].v], direct),
       \* inactive wallet transactions whose spends the wallet still honours (it will not double-spend itself until they are abandoned)
-      lingering |-> {t \in inactive : t \notin W.A /\ t \notin pconf /\ ~IsCb(t)}]
+      lingering |-> {t \in inactive : t \notin W.A /\ t \notin pconf /\ ~IsCb(t)},
+      \* (coverage witness, not compared) block-conflicted transactions whose conflicts sit in two or more different blocks of the chain
+      deep |-> {t \in bconf : Cardinality({i \in 1..Len(W.ch) : \E a \in AncSelfK(W.K, {t}) \ conf : \E u \in ToSet(W.bt[W.ch[i]]) :
+                                                                   u # a /\ Ins(u) \cap Ins(a) # {}}) >= 2}]
 Balances(W) == WV(W).bal
 Avail(W) == WV(W).avail
 OpStr(o) == o[1] \o ":" \o ToString(o[2])
@@ -174,7 +182,7 @@ OpStr(o) == o[1] \o ":" \o ToString(o[2])
 UniJson == [t \in Tx |-> [ins |-> TxDef[t].ins, outs |-> TxDef[t].outs]]
 ProjOf(W, v, first) ==
         [chain |-> W.ch, pool |-> W.P, bal |-> v.bal, coins |-> {OpStr(o) : o \in v.avail},
-         known |-> W.K, aband |-> W.A, conflicted |-> v.bconf, pconflicted |-> v.pconf, uni |-> IF first THEN UniJson ELSE <<>>]
+         known |-> W.K, aband |-> W.A, conflicted |-> v.bconf, pconflicted |-> v.pconf, deep |-> v.deep, uni |-> IF first THEN UniJson ELSE <<>>]
 
 \* ------------------------------------------------------------------------------------------------------------ state
 Cur == [bt |-> btxs, cm |-> cbm, sp |-> span, ch |-> ChainTo(parent, tip), P |-> pool, K |-> known, A |-> aband]
